@@ -1,0 +1,7 @@
+//go:build verif
+
+package tx_pool
+
+// VerifDecodeMsg exposes the reactor's message decoder to the verification harness
+// (round-trip check of well-formed messages).
+func VerifDecodeMsg(bz []byte) (interface{}, error) { return decodeMsg(bz) }
